@@ -173,6 +173,8 @@ var verifC12DMLSrc = []string{
 	"delete from t where k = 0",
 	"insert into t select id + 10, k from t where k = 1",
 	"alter table t drop k",
+	"replace into t (k, id) using (k) values (0, 70), (1, 80), (5, 90)",
+	"replace into t (id, k) using (id) values (0, 9), (7, 9), (1, 9)",
 }
 var verifC12DML [][]parser.Statement
 var verifC12DMLSel parser.SelectQuery
